@@ -26,13 +26,13 @@ ASSUMPTIONS = ['CachedMethods compatibility shim',
 ALPHABET = ['C', 'N', 'O', 'c', 'n', 'Cl', '[NH4+]', '[C@H]', '[O-]', '[13CH3]', '[Fe+2]', '=', '#', '/', '\\', '-', ':',
             '(', ')', '.', '1', '2', '%10', '>']
 CONFIG = {
-    'quick': {'shards': 16, 'budget_s': 150, 'maxlen': 4, 'n_random': 30000, 'n_corpus': 1200, 'n_corrupt': 25,
+    'quick': {'shards': 16, 'budget_s': 150, 'maxlen': 4, 'n_random': 80000, 'n_corpus': 1200, 'n_corrupt': 25,
               'exhaustive_subspaces': ['all strings of <= 4 tokens over the 24-token alphabet'],
               'floors': {'evaluations': 300000, 'distinct_nontrivial': 100000, 'exhaustive.strings': 300000,
                          'verdict.both-accept': 8000, 'verdict.both-reject': 100000, 'graph.compared': 8000,
                          'stereo.centres-compared': 1500, 'rdkit.h-compared': 800, 'charge-spellings-seen': 14,
                          'closure-marks.opening-digit-only': 90, 'closure-marks.closing-digit-only': 90}},
-    'thorough': {'shards': 16, 'budget_s': 1800, 'maxlen': 5, 'n_random': 600000, 'n_corpus': 4200, 'n_corrupt': 60,
+    'thorough': {'shards': 16, 'budget_s': 1800, 'maxlen': 5, 'n_random': 2500000, 'n_corpus': 4200, 'n_corrupt': 150,
                  'exhaustive_subspaces': ['all strings of <= 5 tokens over the 24-token alphabet'],
                  'floors': {'evaluations': 8000000, 'distinct_nontrivial': 1000000, 'exhaustive.strings': 8000000,
                             'verdict.both-accept': 200000, 'verdict.both-reject': 1000000, 'graph.compared': 200000,
@@ -147,8 +147,9 @@ def compare_molecule(ctx, text, rec, mol, origin, base=0):
                     env = heavy
                 else:
                     continue
-            if len(env) not in (3, 4) or len(env) + (ra['hcount'] or 0) != 4:
-                continue      # not a tetrahedron: the marks have no defined meaning
+            n_all = len([x for x in rec.order[i] if x is not None]) + (ra['hcount'] or 0)
+            if len(env) not in (3, 4) or len(env) + (ra['hcount'] or 0) != 4 or n_all != 4:
+                continue      # not a tetrahedron (hydrogens written as atoms count too): the marks have no defined meaning
             want = (tuple(sorted(env)), bool(s) ^ bool(T.parity(env)))
             ctx.count('stereo.centres-compared')
             if desc[k] != want:
@@ -163,6 +164,9 @@ def compare_molecule(ctx, text, rec, mol, origin, base=0):
         if frozenset((a, b)) not in want_b or want_b[frozenset((a, b))] != 2:
             continue       # cumulene: terminals are not adjacent; left to C02/C12
         (ea, xa), (eb, xb) = v[0]
+        if rec.atoms[ea]['aromatic'] or rec.atoms[eb]['aromatic'] or any(o == 8 and (p in (ea, eb) or q in (ea, eb)) for p, q, o in rec.bonds):
+            ctx.count('stereo.double-bond-at-aromatic-or-coordinated-atom-skipped')
+            continue      # '=' written at a lower-case atom / coordinate bond on a double-bond atom: no reader agrees on a meaning
         sa = [(x, rec.marks[(ea, x)]) for x in rec.order[ea] if x is not None and (ea, x) in rec.marks]
         sb = [(x, rec.marks[(eb, x)]) for x in rec.order[eb] if x is not None and (eb, x) in rec.marks]
         if not sa or not sb:
